@@ -279,12 +279,68 @@ package lua
 
 //@ uninterp pnOK(s string) bool
 //@ uninterp pnVal(s string) float64
-//@ trusted parseNumber
-//@ assume parseNumber is a pure function of its argument (strconv based): pnOK(s) says whether s is a numeral, pnVal(s) is its value; which strings are numerals is the subject of C16
+// parseNumber(number) - the ONE conversion behind the lexer's numerals (compile.go), arithmetic coercion, tonumber and the
+// API: the string is trimmed, classified by numeralKind and only then handed to strconv: a decimal numeral to ParseFloat (never
+// an integer parse with base 0: a leading zero is not octal), a hexadecimal one to ParseUint base 16; everything numeralKind
+// does not accept is rejected, whatever strconv would make of it (0b11, 0o7, 1_000, inf, nan, 0x1p4). pnOK/pnVal stay the
+// abstract "is a numeral / its value" other contracts use; that they describe this function is by definition (assumes).
+//@ extern strconv.ParseFloat
+//@ assume strconv.ParseFloat is a pure function (Go standard library)
+//@ logged
 //@ noraise
-//@ ensures  (result1 == nil) <==> pnOK(number)
-//@ ensures  result1 == nil ==> same(result0, pnVal(number))
 //@ modifies nothing
+//@ extern strconv.ParseUint
+//@ assume strconv.ParseUint is a pure function (Go standard library)
+//@ logged
+//@ noraise
+//@ modifies nothing
+//@ extern strconv.ParseInt
+//@ assume strconv.ParseInt is a pure function (Go standard library)
+//@ noraise
+//@ modifies nothing
+//@ extern strings.ToLower
+//@ noraise
+//@ modifies nothing
+//@ extern errors.New
+//@ noraise
+//@ ensures result != nil
+//@ modifies nothing
+
+//@ define isDec(c int) bool = 48 <= c && c <= 57
+//@ define isHex(c int) bool = isDec(c) || (97 <= c && c <= 102) || (65 <= c && c <= 70)
+//@ define signLen(s string) int = ite(len(s) >= 1 && (sbyte(s, 0) == 43 || sbyte(s, 0) == 45), 1, 0)
+// numeralKind: which strings are Lua 5.1 numerals (proved: necessary conditions of each answer, for every string)
+//@ func numeralKind [C16]
+//@ logged
+//@ noraise
+//@ ensures  result == numeralNone || result == numeralDecimal || result == numeralHex
+//@ ensures  "hexadecimal-is-sign-0x-and-only-hex-digits": result == numeralHex ==> len(s) > signLen(s) + 2 && sbyte(s, signLen(s)) == 48 && (sbyte(s, signLen(s) + 1) == 120 || sbyte(s, signLen(s) + 1) == 88) && (forall k int :: signLen(s) + 2 <= k && k < len(s) ==> isHex(sbyte(s, k)))
+//@ ensures  "decimal-holds-only-digits-point-exponent-signs": result == numeralDecimal ==> len(s) > signLen(s) && (forall k int :: signLen(s) <= k && k < len(s) ==> isDec(sbyte(s, k)) || sbyte(s, k) == 46 || sbyte(s, k) == 101 || sbyte(s, k) == 69 || sbyte(s, k) == 43 || sbyte(s, k) == 45)
+//@ ensures  "decimal-has-a-digit-and-no-hex-prefix": result == numeralDecimal ==> (exists k int :: signLen(s) <= k && k < len(s) && isDec(sbyte(s, k))) && !(len(s) > signLen(s) + 1 && sbyte(s, signLen(s)) == 48 && (sbyte(s, signLen(s) + 1) == 120 || sbyte(s, signLen(s) + 1) == 88))
+//@ modifies nothing
+//@ loop 1 invariant signLen(s) + 2 <= i && i <= len(s) && sbyte(s, signLen(s)) == 48 && (sbyte(s, signLen(s) + 1) == 120 || sbyte(s, signLen(s) + 1) == 88) && (forall k int :: signLen(s) + 2 <= k && k < i ==> isHex(sbyte(s, k)))
+//@ loop 2 invariant signLen(s) <= i && i <= len(s) && ndigits == i - signLen(s) && (forall k int :: signLen(s) <= k && k < i ==> isDec(sbyte(s, k)))
+//@ loop 3 invariant signLen(s) < i && i <= len(s) && 0 <= ndigits && (ndigits > 0 ==> exists k int :: signLen(s) <= k && k < i && isDec(sbyte(s, k))) && (forall k int :: signLen(s) <= k && k < i ==> isDec(sbyte(s, k)) || sbyte(s, k) == 46)
+//@ loop 4 invariant signLen(s) < i && i <= len(s) && 0 <= nexp && (exists k int :: signLen(s) <= k && k < i && isDec(sbyte(s, k))) && (forall k int :: signLen(s) <= k && k < i ==> isDec(sbyte(s, k)) || sbyte(s, k) == 46 || sbyte(s, k) == 101 || sbyte(s, k) == 69 || sbyte(s, k) == 43 || sbyte(s, k) == 45)
+
+//@ func parseNumber [C16]
+//@ noraise
+//@ ensures  "what-is-not-a-numeral-is-rejected": ncalls() >= old(ncalls()) + 1 && callfn(old(ncalls())) == fnid("numeralKind") && (callresInt(old(ncalls()), 0) == numeralNone ==> result1 != nil && ncalls() == old(ncalls()) + 1)
+//@ ensures  "a-decimal-numeral-is-read-by-ParseFloat-as-a-whole": callresInt(old(ncalls()), 0) == numeralDecimal ==> ncalls() == old(ncalls()) + 2 && callfn(old(ncalls()) + 1) == fnid("strconv.ParseFloat") && callargStr(old(ncalls()) + 1, 0) == callargStr(old(ncalls()), 0) && callargInt(old(ncalls()) + 1, 1) == 64
+//@ ensures  "a-hexadecimal-numeral-is-read-by-ParseUint-base-16": callresInt(old(ncalls()), 0) == numeralHex ==> ncalls() == old(ncalls()) + 2 && callfn(old(ncalls()) + 1) == fnid("strconv.ParseUint") && callargInt(old(ncalls()) + 1, 1) == 16 && callargInt(old(ncalls()) + 1, 2) == 64
+//@ assumes (result1 == nil) <==> pnOK(number)
+//@ assumes result1 == nil ==> same(result0, pnVal(number))
+//@ modifies nothing
+
+// tonumber(e [, base]): "tries to convert its argument to a number ... otherwise returns nil"; without a base, or with base 10,
+// a string goes through THE standard conversion (parseNumber on the trimmed string: the lexer's and the coercions' numerals),
+// a number is returned as it is
+//@ func baseToNumber [C16]
+//@ requires Inv_gfn(L) && nargs(L) >= 1 && regsValid(L)
+//@ ensures  "standard-conversion-of-a-string": old(isStr(arg(L, 1)) && (nargs(L) < 2 || isNil(arg(L, 2)) || (isNum(arg(L, 2)) && f2i(num(arg(L, 2))) == 10))) ==> result == 1 && top(L) == old(top(L)) + 1 && pushed(L, 0) == old(ite(pnOK(u_trim(str(arg(L, 1)), " \n\t")), mkNum(pnVal(u_trim(str(arg(L, 1)), " \n\t"))), LNil))
+//@ ensures  "a-number-is-returned-as-it-is": old(isNum(arg(L, 1)) && (nargs(L) < 2 || isNil(arg(L, 2)))) ==> result == 1 && pushed(L, 0) == old(arg(L, 1))
+//@ raises when true
+//@ modifies L.reg.array, L.reg.top, L.reg.array[*]
 
 //@ uninterp m_Abs(x float64) float64
 //@ extern math.Abs
